@@ -26,6 +26,10 @@ ENV.pop("SOURCE_DATE_EPOCH", None)
 TREE_BUDGET = dict(quick=12_000_000, thorough=120_000_000)
 
 
+# same estimate for the read-back of the exact tie (toy compressors barely shrink the table)
+EXACT_TREE_BUDGET = 9_000_000
+
+
 def hx(b):
     if isinstance(b, str):
         b = b.encode()
@@ -220,7 +224,9 @@ def one_exact(h, drv, scratch, lab, line):
     if p[0] == "0" and len(p) == 3:
         t = mi.split(" ")
         # search oracle on the C output: valid_image + read_image_tree (toy decompressor) vs spec_tree
-        rc3, rout, rerr = run_proc([drv], "C %s %s %s %s\n" % (t[1], t[5], p[2], " ".join(t[12:])))
+        sup = [int(x) for x in p[1].split(",")]
+        want_tree = sup[1] * (sup[16] - sup[15]) <= EXACT_TREE_BUDGET
+        rc3, rout, rerr = run_proc([drv], "C %s %s %d %s %s\n" % (t[1], t[5], 1 if want_tree else 0, p[2], " ".join(t[12:])))
         rout = [o for o in rout if o]
         res["readback"] = rout[0] if (rc3 == 0 and rout) else "DRIVER-FAILED rc=%s %s" % (rc3, rerr[-300:])
     return res
